@@ -1815,7 +1815,14 @@ func (g *farmGen) hostile(v *farmView) (rig.Tx, bool) {
 			cr := g.creators[rng.Intn(len(g.creators))]
 			msg := &farmtypes.MsgCreatePool{Description: "hostile", LptDenom: v.lpts[0], StartHeight: v.h, RewardPerBlock: sdk.NewCoins(coin(g.rew[0], big.NewInt(3))), TotalReward: sdk.NewCoins(coin(g.rew[0], big.NewInt(30))), Editable: true, Creator: cr.Addr.String()}
 			why := ""
-			switch rng.Intn(4) {
+			switch rng.Intn(5) {
+			case 4: // wrong in two ways at once, one per denomination: which refusal is given must not depend on chance
+				if len(g.rew) < 2 {
+					return rig.Tx{}, false
+				}
+				why = "two-ways-wrong"
+				msg.RewardPerBlock = sdk.NewCoins(coin(g.rew[0], big.NewInt(5)), coin(g.rew[1], big.NewInt(1)))
+				msg.TotalReward = sdk.NewCoins(coin(g.rew[0], big.NewInt(1)), coin(g.rew[1], pow2(70)))
 			case 0:
 				msg.StartHeight, why = v.h-1, "past-start"
 			case 1:
@@ -2035,6 +2042,17 @@ func (w *farmWorkload) Next(block int) []rig.Tx {
 			extra = append(extra, g.r.Mk(g.acct(last.Creator), &farmTag{Kind: "adjust", Note: "shorten-the-longest"}, &farmtypes.MsgAdjustPool{PoolId: last.Id, RewardPerBlock: rpb, Creator: last.Creator}))
 			g.run.Count("farm-longest-pool-shortened", 1)
 		}
+	}
+	// every 7 blocks a creation that is wrong in two ways at once, one per denomination (refused before its sequence
+	// number is consumed): which of the two refusals is given must be the same in every execution
+	if block%7 == 3 && len(v.lpts) > 0 {
+		cr := g.stranger
+		msg := &farmtypes.MsgCreatePool{Description: "two-ways-wrong", LptDenom: v.lpts[0], StartHeight: v.h + 2, Editable: true, Creator: cr.Addr.String(),
+			RewardPerBlock: sdk.NewCoins(coin(g.rew[0], big.NewInt(5)), coin(g.rew[1], big.NewInt(1))),
+			TotalReward:    sdk.NewCoins(coin(g.rew[0], big.NewInt(1)), coin(g.rew[1], pow2(70)))}
+		extra = append(extra, g.r.Mk(cr, &farmTag{Kind: "create", Hostile: "two-ways-wrong"}, msg))
+		cr.Seq--
+		g.run.Count("farm-creation-wrong-in-two-ways-sent", 1)
 	}
 	if block%17 == 11 && len(v.s.Pools) < 16 {
 		if tx, ok := g.mkCreate(v, "residue", 3+g.run.Rng.Intn(10), int64(g.run.Rng.Intn(2)), 1, true); ok {
